@@ -311,6 +311,45 @@ theorem onWrite_needs_backlog (ms : List Move) (inp : PollIn) (o : Outcome) (now
       rw [this] at hww
       simpa [clientFlags] using hww
 
+/-! ### listener / establisher branches of the dispatch switch -/
+
+/-- establisher outcomes: a connect event makes exactly one callback — onAbolished when the connect failed (SO_ERROR), else
+    onConnected with a fresh client id -/
+theorem connect_event_outcome (s : St) (i : Id) (e : EstS) (o : Outcome) (he : s.ests i = some e) :
+    (dispatch s (some (i, { c := true })) o).2 =
+      if e.connected then [Ev.onConnected i s.nextAuto] else [Ev.onAbolished i] := by
+  unfold dispatch
+  simp only [he, Flags.isZero]
+  cases e.connected <;> simp
+
+/-- … and the establisher is taken out of the poll BEFORE its callback runs: when the callback script does nothing the
+    establisher is unregistered afterwards, so (`dispatch_only_registered_kinds`) no second outcome is ever dispatched for it
+    unless a script re-registers the id — which `mkEst` refuses for a used id -/
+theorem connect_event_unregisters (s : St) (i : Id) (e : EstS) (o : Outcome) (he : s.ests i = some e)
+    (hf : e.connected = false) (hscr : s.scripts i (s.calls i) = []) :
+    lookup (dispatch s (some (i, { c := true })) o).1.sockets i = none := by
+  have hr : lookup (pollRemove s i).sockets i = none := by
+    unfold pollRemove
+    cases h : lookup s.sockets i with
+    | none => simpa using h
+    | some r => simp only; exact lookup_eraseId_self _ _
+  have hsc : (pollRemove s i).scripts i ((pollRemove s i).calls i) = [] := by
+    have h1 : (pollRemove s i).scripts = s.scripts := pollRemove_scripts s i
+    have h2 : (pollRemove s i).calls = s.calls := by unfold pollRemove; split <;> rfl
+    rw [h1, h2]; exact hscr
+  unfold dispatch
+  simp only [he, Flags.isZero, hf]
+  simp only [Bool.or_self, Bool.not_false, Bool.false_eq_true, if_false, Bool.not_true, if_true, callback, hsc, runActs]
+  exact hr
+
+/-- listener: an accept event accepts ONE queued connection (onAccepted with a fresh client id) and leaves the others to
+    the next readiness report; when accept() fails nothing is called -/
+theorem accept_event_outcome (s : St) (i : Id) (l : ListenerS) (o : Outcome) (hl : s.listeners i = some l) :
+    (dispatch s (some (i, { a := true })) o).2 = if l.pending = 0 then [] else [Ev.onAccepted i s.nextAuto] := by
+  unfold dispatch
+  simp only [hl, Flags.isZero]
+  by_cases h : l.pending = 0 <;> simp [h]
+
 /-! ### failing I/O -/
 
 /-- a read that hits end-of-stream queues the client for onClosed -/
